@@ -1,6 +1,8 @@
 /-
-C18 — stringutility.hh, the part the generated file `Gen/C18.lean` builds on: strings as `List Char`,
-`hasPrefix`, `hasSuffix` transcribed statement by statement.  Core Lean only.
+C18 — stringutility.hh, the part the generated file `Gen/C18.lean` builds on: strings as `List Char`, `std::equal`
+(`equalRange`), and the canonical transcriptions `hasPrefixCanon`, `hasSuffixCanon`.  Since round four `hasPrefix` and
+`hasSuffix` themselves are REGENERATED from stringutility.hh (Gen/C18.lean) and proved equal to the canonical forms
+(`hasPrefix_eq_canon`, `hasSuffix_eq_canon` in Proofs/C18/Basic.lean).  Core Lean only.
 -/
 import DuneVerif.Common.Proto
 
@@ -17,11 +19,11 @@ def equalRange : Str → Str → Bool
   | a :: p, b :: c => a == b && equalRange p c
 
 /-- `c.size() >= len && std::equal(prefix, prefix+len, c.begin())` -/
-def hasPrefix (c pre : Str) : Bool :=
+def hasPrefixCanon (c pre : Str) : Bool :=
   decide (c.length ≥ pre.length) && equalRange pre c
 
 /-- `if(c.size() < len) return false; it = c.begin() + (c.size()-len); return std::equal(suffix, suffix+len, it)` -/
-def hasSuffix (c suf : Str) : Bool :=
+def hasSuffixCanon (c suf : Str) : Bool :=
   if c.length < suf.length then false
   else equalRange suf (c.drop (c.length - suf.length))
 
